@@ -290,10 +290,15 @@ def extract(text, variant):
                   t, "default Config")
         d["defaultSubstitutionLimit"] = ("", m.group(1))
         d["defaultTaskCapacity"] = ("", cxx_to_lean(m.group(2), {"INVALID_LONG": "INVALID_LONG"}))
-        ms = set(re.findall(r"for\s*\(\s*Long\s+i\s*=\s*0\s*;\s*i\s*(<=|<|!=)\s*SUBSTITUTION_LIMIT\s*&&\s*_core\.request\s*;\s*\+\+i\s*\)", t))
-        if ms != {"<"}:
-            raise TranslateError("substitution loops are not uniformly 'i < SUBSTITUTION_LIMIT && _core.request': %s" % sorted(ms))
-        d["substitutionLoopCount"] = ("", str(len(re.findall(r"i\s*<\s*SUBSTITUTION_LIMIT\s*&&\s*_core\.request", t))))
+        loops = re.findall(r"for\s*\(\s*Long\s+i\s*=\s*(\d+)\s*;\s*i\s*(<=|<)\s*SUBSTITUTION_LIMIT\s*&&\s*_core\.request\s*;\s*\+\+i\s*\)", t)
+        uses = len(re.findall(r"SUBSTITUTION_LIMIT\s*&&", t))
+        if not loops or len(loops) != uses:
+            raise TranslateError("substitution loops: %d of %d loop headers have the form 'for (Long i = K; i </<= SUBSTITUTION_LIMIT && _core.request; ++i)'" % (len(loops), uses))
+        if len(set(loops)) != 1:
+            raise TranslateError("the substitution loops differ from each other: %s" % sorted(set(loops)))
+        d["substitutionLoopCount"] = ("", str(len(loops)))
+        d["substLoopStart"] = ("", loops[0][0])
+        d["substLoopInclusive"] = ("", "true" if loops[0][1] == "<=" else "false")
 
     _try('config', g_config, failed)
 
@@ -364,11 +369,11 @@ def translate_call(expr, leanvar, cxxvar):
 ORDER = ["bitsShort", "bitsLong", "bitsStateID", "bitsProng", "INVALID_SHORT", "INVALID_LONG", "INVALID_STATE_ID", "INVALID_PRONG",
          "bitWidth", "bitWidthArms", "contain", "typeBits", "typeBitsMaxWidth", "widthBits", "activeBits", "serialBits",
          "activityBitWrites", "activityBitReads",
-         "taskCapacity", "defaultSubstitutionLimit", "defaultTaskCapacity", "substitutionLoopCount",
+         "taskCapacity", "defaultSubstitutionLimit", "defaultTaskCapacity", "substitutionLoopCount", "substLoopStart", "substLoopInclusive",
          "halfL", "halfR", "lowerKeeps", "upperSkips", "lStateId", "lProngIndex", "rStateId", "rProngIndex", "rProng", "goesLeft", "dispatchSites",
          "findStep", "findHit", "findMiss", "findStart", "byteCount", "unitCount"]
 
-TYPES = {"activityBitWrites": "List (Nat × Nat)", "activityBitReads": "List Nat"}
+TYPES = {"activityBitWrites": "List (Nat × Nat)", "activityBitReads": "List Nat", "substLoopInclusive": "Bool"}
 
 
 def render(d, source_note):
@@ -413,7 +418,7 @@ GROUPS = {
     "contain": ["contain"],
     "typebits": ["typeBits", "typeBitsMaxWidth"],
     "serial": ["widthBits", "activeBits", "serialBits", "activityBitWrites", "activityBitReads"],
-    "config": ["taskCapacity", "defaultSubstitutionLimit", "defaultTaskCapacity", "substitutionLoopCount"],
+    "config": ["taskCapacity", "defaultSubstitutionLimit", "defaultTaskCapacity", "substitutionLoopCount", "substLoopStart", "substLoopInclusive"],
     "halving": ["halfL", "halfR", "lowerKeeps", "upperSkips", "lStateId", "lProngIndex", "rStateId", "rProngIndex", "rProng", "goesLeft", "dispatchSites"],
     "find": ["findStep", "findHit", "findMiss", "findStart"],
     "buffers": ["byteCount", "unitCount"],
